@@ -28,6 +28,23 @@ BOUNDARY = {
 }
 
 
+def boundary_decl(t):
+    """the declared callee of a call, with `Clone::clone` of a merlin transcript (a trait method whose declaration does not name the
+    type) spelled as the boundary function it is"""
+    d = callee_decl(t)
+    if d == 'std::clone::Clone::clone' and t.get('args') and t['args'][0].get('k') in ('copy', 'move'):
+        ty = t['args'][0]['place'].get('ty', '')
+        while ty.startswith('&'):
+            ty = ty[1:].lstrip()
+            if ty.startswith('mut '):
+                ty = ty[4:]
+            if ty.startswith("'"):
+                ty = ty.split(' ', 1)[1] if ' ' in ty else ty
+        if ty == 'merlin::Transcript':
+            return 'merlin::Transcript::clone'
+    return d
+
+
 class Event(object):
     __slots__ = ('kind', 'args', 'site', 'loops', 'must', 'body', 'bb', 'result', 'conds')
 
@@ -93,7 +110,7 @@ class Tracer(object):
         for bb, t in body.calls():
             if body.block[bb]['cleanup']:
                 continue
-            if callee_decl(t) in BOUNDARY:
+            if boundary_decl(t) in BOUNDARY:
                 res = True
                 break
             n = callee_name(t)
@@ -201,7 +218,7 @@ class Tracer(object):
             t = blk['term']
             if t['k'] != 'call':
                 continue
-            decl = callee_decl(t)
+            decl = boundary_decl(t)
             name = callee_name(t)
             if decl in BOUNDARY:
                 args = tuple(self._sub(a, env, site) for a in self.eng.call_args(body, bb))
